@@ -245,6 +245,24 @@ func genPowerLoss(prop string) func(r *rng, tier string, res *Result) {
 						g.sync()
 					}
 				}
+				if i%5 == 2 {
+					// the previous session ran WITHOUT sync-after-every-write and was killed; this
+					// session runs WITH it, only reads, and closes: Close must flush what recovery
+					// inherited from the dead process
+					g.params(g.maxSeg, 512, 0.3, false)
+					g.close()
+					g.open()
+					for j := 0; j < 3+g.r.intn(8); j++ {
+						g.put(g.pick(), g.value())
+					}
+					g.do("kill")
+					g.isOpen = false
+					g.params(g.maxSeg, 512, 0.3, true)
+					g.open()
+					g.checkAll()
+					g.c.tag("read_only_sync_mode_session_after_a_killed_session")
+					ops = 0
+				}
 				if i%5 == 3 {
 					// an emptied database whose compaction removes every segment: the next Open has to
 					// create a segment file, and the power may fail before its header is flushed
